@@ -9,7 +9,7 @@ while IFS=$'\t' read -r name prop sid rules missed also; do
   [ -s $out ] || { echo "PENDING $name"; continue; }
   if ! grep -q "suite=pass" $out || ! grep -q "demo_with_change_exit=1" $out || ! grep -q "demo_without_change_exit=0" $out || grep -q "DEMO-BUILD-FAILED" $out; then echo "NOT-CONFIRMED $name: $(cat $out)"; continue; fi
   [ -d /verif/seeded/$sid ] && continue
-  p=${name%%-*}; k=${name#*-}; k=${k%r2}
+  p=${name%%-*}; k=${name#*-}; k=${k%r2}; k=${k%r3}; k=${k%r3b}
   caught=true; [ -z "$rules" ] && caught=false
   python3 /verif/tools/store_seed.py $sid $prop /tmp/confirm/$name.applied.diff $root/out-$p/demo_${k}_test.go $root/out-$p/meta_${k}.txt $caught "$rules" $missed "$RAN" "$also"
 done < $table
